@@ -43,18 +43,112 @@ def _family(vc, name, params):
     raise ValueError(name)
 
 
+class MixtureConditional:
+    """Y | X = sum_k w_k * Normal(mu_k(X), sigma_k): a conditional distribution with several modes, assembled from
+    virocon's own ConditionalDistribution / NormalDistribution objects (duck-typed: HighestDensityContour only calls cdf)."""
+
+    def __init__(self, comps):
+        import virocon as vc
+        self.weights = [float(c["w"]) for c in comps]
+        tot = sum(self.weights)
+        self.weights = [w / tot for w in self.weights]
+        self.parts = [vc.distributions.ConditionalDistribution(
+            vc.NormalDistribution(f_sigma=float(c["sigma"])),
+            {"mu": vc.DependenceFunction(_dep(*c["mu"]), [(None, None)] * 3)}) for c in comps]
+
+    def cdf(self, x, given):
+        out = 0.0
+        for w, part in zip(self.weights, self.parts):
+            out = out + w * np.asarray(part.cdf(x, given=given), dtype=float)
+        return out
+
+
+class _TableMarginal:
+    def __init__(self, edges, mass):
+        self.edges = np.asarray(edges, dtype=float)
+        self.cum = np.concatenate([[0.0], np.cumsum(np.asarray(mass, dtype=float))])
+        self.cum = self.cum / self.cum[-1]
+
+    def cdf(self, x):
+        return np.interp(np.asarray(x, dtype=float), self.edges, self.cum)
+
+
+class _TableConditional:
+    def __init__(self, edges, centres_given, rows):
+        self.edges = np.asarray(edges, dtype=float)
+        self.centres = np.asarray(centres_given, dtype=float)
+        self.cums = []
+        for r in rows:
+            c = np.concatenate([[0.0], np.cumsum(np.asarray(r, dtype=float))])
+            self.cums.append(c / c[-1])
+
+    def cdf(self, x, given):
+        i = int(np.argmin(np.abs(self.centres - float(given))))
+        return np.interp(np.asarray(x, dtype=float), self.edges, self.cums[i])
+
+
+class TableModel:
+    """a 2-D (or, with `extrude`, 3-D) model whose cell probabilities on ITS grid are proportional to a weight table:
+    P[i, j] = w[i, j] / sum(w)  (3-D: P[i, m, j] = e[m] * w[i, j] / ...).  Used to hand HighestDensityContour an enclosed
+    region of a chosen shape (regions with overlapping bounding boxes, nested regions, ...)."""
+
+    def __init__(self, t):
+        w = np.asarray(t["weights"], dtype=float)
+        d0, d1 = float(t["deltas"][0]), float(t["deltas"][-1])
+        n0, n1 = w.shape
+        e0 = np.arange(n0 + 1) * d0
+        e1 = np.arange(n1 + 1) * d1
+        c0 = (np.arange(n0) + 0.5) * d0
+        first = _TableMarginal(e0, w.sum(axis=1))
+        last = _TableConditional(e1, c0, w)
+        if t.get("extrude"):
+            dm = float(t["deltas"][1])
+            m = np.asarray(t["extrude"], dtype=float)
+            mid = _TableMarginal(np.arange(len(m) + 1) * dm, m)
+            self.distributions = [first, mid, last]
+            self.conditional_on = [None, None, 0]
+        else:
+            self.distributions = [first, last]
+            self.conditional_on = [None, 0]
+        self.n_dim = len(self.distributions)
+
+    def marginal_icdf(self, p, dim, precision_factor=1):
+        raise NotImplementedError("table models are used with explicit limits")
+
+
+def table_grid(t):
+    """limits and deltas under which the HDC grid is the table's grid (cell centres at (k + 1/2) * delta)"""
+    w = np.asarray(t["weights"], dtype=float)
+    shape = [w.shape[0]] + ([len(t["extrude"])] if t.get("extrude") else []) + [w.shape[1]]
+    deltas = [float(d) for d in t["deltas"]]
+    limits = [[0.5 * dl, (k - 0.5) * dl] for k, dl in zip(shape, deltas)]
+    return limits, deltas
+
+
 def build_model(desc):
-    """desc: {"dims": [{"family", "params"} | {"family", "params"(fixed), "cond", "dep": {par: [kind,a,b,c]}}]}"""
+    """desc: {"dims": [{"family", "params"} | {"family", "params"(fixed), "cond", "dep": {par: [kind,a,b,c]}}
+                       | {"family": "mixture", "cond", "components": [{"w", "mu": [kind,a,b,c], "sigma"}]}]}
+       or {"table": {...}, "dims": [placeholders]}"""
     import virocon as vc
+    if desc.get("table") is not None:
+        return TableModel(desc["table"])
     dds = []
-    for d in desc["dims"]:
-        if d.get("cond") is None:
+    mixtures = []
+    for k, d in enumerate(desc["dims"]):
+        if d["family"] == "mixture":
+            mixtures.append((k, d))
+            dds.append({"distribution": vc.NormalDistribution(f_sigma=1.0), "conditional_on": d["cond"],
+                        "parameters": {"mu": vc.DependenceFunction(_dep("lin", 0.0, 1.0, 0.0), [(None, None)] * 3)}})
+        elif d.get("cond") is None:
             dds.append({"distribution": _family(vc, d["family"], d["params"])})
         else:
-            fixed = {"f_" + k: v for k, v in d.get("params", {}).items()}
-            deps = {k: vc.DependenceFunction(_dep(*v), [(None, None)] * 3) for k, v in d["dep"].items()}
+            fixed = {"f_" + k2: v for k2, v in d.get("params", {}).items()}
+            deps = {k2: vc.DependenceFunction(_dep(*v), [(None, None)] * 3) for k2, v in d["dep"].items()}
             dds.append({"distribution": _family(vc, d["family"], fixed), "conditional_on": d["cond"], "parameters": deps})
-    return vc.GlobalHierarchicalModel(dds)
+    model = vc.GlobalHierarchicalModel(dds)
+    for k, d in mixtures:
+        model.distributions[k] = MixtureConditional(d["components"])
+    return model
 
 
 def r3(rng, lo, hi):
